@@ -337,6 +337,10 @@ def build(tier, seed):
                              lambda: D.diff(c08.fterm('european', 'price', True, OPEN), t),
                              lambda: (lambda V: tm.mul(v, v, tm.sub(D.diff(D.diff(V, x), x), D.diff(V, x))))(c08.fterm('european', 'price', True, OPEN)),
                              OPEN, 'CANARY (must be refuted): dV/dt == v^2 (V_xx - V_x)', seed=seed, kind='canary'))
+    # operands of different shapes: broadcast shape and element-wise value of every price function
+    for family, spec in c08.FAMILIES.items():
+        for call in spec['calls']:
+            obs.append(c08.broadcast_ob(family, 'price', call, PROP))
     return {
         'obligations': obs, 'functions': FUNCTIONS, 'assumptions': ASSUMPTIONS, 'level': 'proof',
         'trusted_base': ['Feynman-Kac / uniqueness theorem (not mechanised)', 'pfv executor + torch contract shim', 'pfv/diff.py', 'sympy expand/cancel/limit', 'z3 QF_NRA', 'mpmath 50-digit evaluation'],
